@@ -229,7 +229,7 @@ def fail_atomic(rep, F, cg, only=None, rule='FAIL-ATOMIC'):
             return e, None
         need = e.get('requires_before_mutation', [])
         have = dominating_calls(n)
-        miss = [x for x in need if x not in have]
+        miss = [x for x in need if not any(re.search(x, h) for h in have)]
         if miss:
             return e['reason'], 'the excuse relies on validation(s) %s dominating every mutation, but they do not' % miss
         return e['reason'], None
